@@ -424,6 +424,64 @@ pub fn run(run: Run) -> ! {
         }
     }
     let pts: u64 = acc.per.iter().map(|p| p.n).sum();
+    // Custom easings composed from built-ins (a built-in boxed as a custom easing, and a user function that calls
+    // a built-in inside its own calc), directly and as a timeline's default easing: used as given, no panic.
+    {
+        #[derive(Clone, Debug)]
+        struct Mirrored(Easing);
+        impl EasingFunction for Mirrored {
+            fn calc(&self, x: f32) -> f32 {
+                1.0 - self.0.calc(1.0 - x)
+            }
+        }
+        for (ei, (name, e, _)) in tab.iter().enumerate() {
+            let r = std::panic::catch_unwind(std::panic::AssertUnwindSafe(|| {
+                let boxed = Easing::Custom(Box::new(e.clone()));
+                let mirrored = Easing::Custom(Box::new(Mirrored(e.clone())));
+                let tl = P::timeline().duration_seconds(1.0).default_easing(Easing::Custom(Box::new(e.clone()))).keyframe(P::keyframe(0.0).a(0.0)).keyframe(P::keyframe(1.0).a(1.0)).build();
+                let mut bad: Option<(f32, f32, f32)> = None;
+                for j in 0..=64 {
+                    let x = j as f32 / 64.0;
+                    let want = e.calc(x);
+                    let mut p = P::default();
+                    tl.update(&mut p, x);
+                    let via_tl = 0.0f32 * (1.0 - want) + 1.0 * want;
+                    if boxed.calc(x).to_bits() != want.to_bits() || mirrored.calc(x).to_bits() != (1.0 - e.calc(1.0 - x)).to_bits() || (x < 1.0 && p.a.to_bits() != via_tl.to_bits() && !(p.a == 0.0 && via_tl == 0.0)) {
+                        bad = Some((x, boxed.calc(x), want));
+                        break;
+                    }
+                }
+                bad
+            }));
+            custom_checks += 65 * 3;
+            match r {
+                Err(_) => acc.sink.add("custom-composed-from-built-in:panic", ei as u64, || (format!("a custom easing that evaluates Easing::{name} inside its own calc panics"), json!({"easing": name}))),
+                Ok(Some((x, got, want))) => acc.sink.add("custom-composed-from-built-in:not-used-as-given", ei as u64, || (format!("Easing::Custom(Box::new(Easing::{name})).calc({x}) = {got}, Easing::{name}.calc({x}) = {want}"), json!({"easing": name, "x": fj(x)}))),
+                Ok(None) => {}
+            }
+        }
+    }
+    // Order independence (exact): the value at x must not depend on which input the same easing was asked about
+    // just before (a neighbouring float, or a far-away one)
+    for (ei, (name, e, _)) in tab.iter().enumerate() {
+        for j in 1..64 {
+            let x = j as f32 / 64.0;
+            for nb in [f32::from_bits(x.to_bits() + 1), f32::from_bits(x.to_bits() - 1), x] {
+                let _ = e.calc(0.9375 - x * 0.5);
+                let a = e.calc(x);
+                let _ = e.calc(nb);
+                let b = e.calc(x);
+                let _ = e.calc(nb);
+                let c = e.calc(nb);
+                let _ = e.calc(0.03125 + x * 0.25);
+                let d = e.calc(nb);
+                custom_checks += 2;
+                if a.to_bits() != b.to_bits() || c.to_bits() != d.to_bits() {
+                    acc.sink.add(&format!("depends-on-previous-evaluation:{name}"), (ei as u64) << 16 | j as u64, || (format!("Easing::{name}: calc({x}) = {a} after a far-away input but {b} after calc({nb}); calc({nb}) = {c} / {d}"), json!({"easing": name, "x": fj(x), "neighbour": fj(nb)})));
+                }
+            }
+        }
+    }
     let mut cov = Map::new();
     cov.insert("states".into(), json!(pts / 29));
     cov.insert("transitions".into(), json!(acc.evals + 2 * acc.mirror_checks + 2 * custom_checks));
@@ -432,7 +490,7 @@ pub fn run(run: Run) -> ! {
     cov.insert("distinct_nontrivial".into(), json!(pts));
     cov.insert("rule".into(), json!(if thorough { "ALL 1 065 353 217 f32 values of [0,1] x 29 built-in easings (definition reference at every 16th value and wherever the parametric reading is not matched); 1296 user-built CubicBezierEasing curves on a 1/256 grid; mirrors on a 2^22 grid; non-trivial = (easing, x) evaluations" } else { "every 64th f32 bit pattern of [0,1] (1.66e7 points) plus the 4096 patterns next to 0 and next to 1 and 1024 around 1/2,1/4,3/4,0.1,0.3,0.9, x 29 built-in easings; 1296 user-built CubicBezierEasing curves (control points x in {0,.25,.3,.5,.7,1}, y in {-.5,0,.2,.5,1,1.5}) on a 1/256 grid, directly and through Easing::Custom; mirrors on a 2^16 grid; non-trivial = (easing, x) evaluations" }));
     cov.insert("exhaustive".into(), json!(true));
-    cov.insert("oracles".into(), json!("calc(0)==0, calc(1)==1 exactly; non-Back: 0<=y<=1 and y(next x) >= y(x) - 2 ulp; Linear identity bit-for-bit; |Out(x) - (1-In(1-x))| <= 1e-5 and InOut self-mirror; Custom(f) == f bit-for-bit directly and through a timeline; definition: |calc(x) - B_y(t*)| <= 1e-4 with B_x(t*) = x from an independent control-point table"));
+    cov.insert("oracles".into(), json!("calc(0)==0, calc(1)==1 exactly; non-Back: 0<=y<=1 and y(next x) >= y(x) - 2 ulp; Linear identity bit-for-bit; |Out(x) - (1-In(1-x))| <= 1e-5 and InOut self-mirror; Custom(f) == f bit-for-bit directly and through a timeline, also for customs that wrap or call a built-in; calc(x) independent of the previously evaluated input (neighbouring floats); definition: |calc(x) - B_y(t*)| <= 1e-4 with B_x(t*) = x from an independent control-point table"));
     cov.insert("per_easing_definition_summary".into(), json!(def_summary));
     cov.insert("mirror_checks".into(), json!(acc.mirror_checks));
     cov.insert("custom_checks".into(), json!(custom_checks));
